@@ -59,8 +59,10 @@ class _WGen:
         items = []
         for _ in range(self.rng.choice([1, 1, 2])):
             # manager: (id, enter behaviour, exit behaviour); bound to a variable or not
+            # sk: log key of a statement-producing manager expression (do (log sk 0) (setv zz 1) (cm ...)), or None;
+            # a later manager of that kind makes Hy split the form into nested with statements
             items.append((self.fk(), self.rng.choice(["ok", "ok", "ok", "raise"]), self.rng.choice(["pass", "pass", "suppress", "raise"]),
-                          self.rng.choice([None, "x0", "x1"])))
+                          self.rng.choice([None, "x0", "x1"]), self.fk() if self.rng.random() < 0.3 else None))
         return ("with", items, self.body(d))
 
 
@@ -71,7 +73,8 @@ def w_hy(f):
         return "(raise (E%d))" % f[1]
     if f[0] == "var":
         return f[1]
-    items = " ".join("%s (cm %d \"%s\" \"%s\")" % (v or "_", k, en, ex) for k, en, ex, v in f[1])
+    items = " ".join("%s %s" % (v or "_", ("(do (log %d 0) (setv zz 1) (cm %d \"%s\" \"%s\"))" % (sk, k, en, ex)) if sk is not None
+                                else "(cm %d \"%s\" \"%s\")" % (k, en, ex)) for k, en, ex, v, sk in f[1])
     return "(with [%s]%s)" % (items, "".join(" " + w_hy(x) for x in f[2]))
 
 
@@ -86,14 +89,24 @@ def w_py(f, ind, target):
         return "%s%s\n" % (pad, (target + " = " + f[1]) if target else f[1])
     tmp = "_w%d" % f[1][0][0]
     s = "%s%s = None\n" % (pad, tmp)
-    s += "%swith %s:\n" % (pad, ", ".join("cm(%d, '%s', '%s')%s" % (k, en, ex, (" as " + v) if v else "") for k, en, ex, v in f[1]))
-    body = f[2]
+    # the reference: managers are entered left to right, each manager expression (with its statements) evaluated
+    # just before it is entered -- nested with statements wherever a manager expression has statements
+    items, body = list(f[1]), f[2]
+    lvl = ind
+    while items:
+        k, en, ex, v, sk = items[0]
+        if sk is not None:
+            s += "%slog(%d, 0)\n%szz = 1\n" % ("    " * lvl, sk, "    " * lvl)
+        group = [items.pop(0)]
+        while items and items[0][4] is None:
+            group.append(items.pop(0))
+        s += "%swith %s:\n" % ("    " * lvl, ", ".join("cm(%d, '%s', '%s')%s" % (k2, en2, ex2, (" as " + v2) if v2 else "")
+                                                        for k2, en2, ex2, v2, _ in group))
+        lvl += 1
     if not body:
-        s += "%s    %s = None\n" % (pad, tmp)
+        s += "%s%s = None\n" % ("    " * lvl, tmp)
     for i, x in enumerate(body):
-        s += w_py(x, ind + 1, tmp if i == len(body) - 1 else None)
-    if body and body[-1][0] == "raise":
-        pass
+        s += w_py(x, lvl, tmp if i == len(body) - 1 else None)
     if target:
         s += "%s%s = %s\n" % (pad, target, tmp)
     return s
